@@ -84,6 +84,17 @@ def synthetic_task(task):
                 rng.shuffle(order)
                 tu.compute_log_S([kids[i] for i in order])
                 part.count("evaluations")
+            # the same set of distinct arrays with different multiplicities, and one-ulp neighbours at the far end
+            A, Dd = kids[0], gen.make_values(rng, 1, D, G, "moderate")[0]
+            for combo in ([A], [A, A], [A, A, A], [A, Dd], [A, Dd, A], [Dd, A, A], [Dd], [Dd, Dd], [A]):
+                tu.compute_log_S([x for x in combo])
+                part.count("evaluations")
+            tail = A.copy()
+            tail[-1, -1] = np.nextafter(tail[-1, -1], -np.inf)
+            tu.compute_log_S([tail, Dd])
+            tu._convolve_two_children(tail, Dd)
+            tu._convolve_two_children(A, A)
+            tu._convolve_two_children(A, Dd)
             if m >= 2:
                 tu._convolve_two_children(kids[0], kids[1])
                 tu._convolve_two_children(kids[1], kids[0])
